@@ -657,7 +657,7 @@ func (c *Ctx) ruleFifoSegments(rule string, r *pqRoles) {
 			if isNilExpr(fr.Fn.Info(), x) {
 				x, y = y, x
 			}
-			if isNilExpr(fr.Fn.Info(), y) && selField(fr.Fn.Info(), x) == fNext {
+			if isNilExpr(fr.Fn.Info(), y) && (selField(fr.Fn.Info(), x) == fNext || localOfField(fr.Fn, x, fNext)) {
 				return fmt.Sprintf("next-nonnil=%v", (op == token.NEQ) == branch)
 			}
 			return ""
@@ -843,6 +843,16 @@ func (c *Ctx) switchReadToNext(rule string, f *Func, fNext string) {
 		if sel, ok := ast.Unparen(as.Rhs[0]).(*ast.SelectorExpr); ok && fieldKey(info, sel) == fNext && strings.HasSuffix(selField(info, sel.X), ".readChunk") {
 			good = true
 		}
+		// next := q.readChunk.Next; ...; q.readChunk = next
+		if id, ok := ast.Unparen(as.Rhs[0]).(*ast.Ident); ok {
+			if obj := info.ObjectOf(id); obj != nil {
+				all, n := assignedOnlyFrom(f, obj, func(rhs ast.Expr, idx, cnt int) bool {
+					sel, ok := ast.Unparen(rhs).(*ast.SelectorExpr)
+					return ok && fieldKey(info, sel) == fNext && strings.HasSuffix(selField(info, sel.X), ".readChunk")
+				})
+				good = good || (all && n == 1)
+			}
+		}
 		c.Rep.check(good, rule, f.Short(), "read chunk advanced to something other than its Next", c.P.pos(as), "readChunk = readChunk.Next", "Dequeue must advance the read chunk to readChunk.Next only")
 		return true
 	})
@@ -931,4 +941,20 @@ func (c *Ctx) ruleBatchOrder(rule string) {
 			return true
 		})
 	}
+}
+
+
+// localOfField: e is a local variable whose only assignment reads the given field.
+func localOfField(f *Func, e ast.Expr, field string) bool {
+	id, ok := ast.Unparen(e).(*ast.Ident)
+	if !ok {
+		return false
+	}
+	info := f.Info()
+	obj := info.ObjectOf(id)
+	if obj == nil {
+		return false
+	}
+	all, n := assignedOnlyFrom(f, obj, func(rhs ast.Expr, idx, cnt int) bool { return selField(info, rhs) == field })
+	return all && n == 1
 }
